@@ -8,6 +8,7 @@ package c01
 import (
 	"bytes"
 	"context"
+	"errors"
 	"crypto/x509"
 	"encoding/json"
 	"fmt"
@@ -149,6 +150,16 @@ func targetVariants(d ocispec.Descriptor) map[string]ocispec.Descriptor {
 	x = d
 	x.MediaType = ""
 	v["empty-mediaType"] = x
+	// the digest of the EMPTY input under another algorithm, size 0 (what an exhausted reader hashes to)
+	x = d
+	x.Digest, x.Size = digest.SHA512.FromBytes(nil), 0
+	v["empty-input-sha512"] = x
+	x = d
+	x.Digest, x.Size = digest.SHA256.FromBytes(nil), 0
+	v["empty-input-sha256"] = x
+	x = d
+	x.Digest, x.Size = digest.SHA384.FromBytes(nil), 0
+	v["empty-input-sha384"] = x
 	return v
 }
 
@@ -197,11 +208,14 @@ func (w *world) envelopes(c *common.Ctx, d ocispec.Descriptor) []envCase {
 			out = append(out, envCase{"payload/" + name, common.MediaCOSE, b, ""})
 		}
 	}
-	// wrong payload content type
-	for _, f := range []string{common.MediaJWS, common.MediaCOSE} {
-		b, err := common.SignEnvelope(common.EnvOpts{Format: f, Chain: w.chain, Target: &d, ContentType: "application/json"})
-		if err == nil {
-			out = append(out, envCase{"content-type", f, b, ""})
+	// wrong payload content type: an unrelated type, and look-alikes of the Notary type
+	for _, ct := range []string{"application/json", common.PayloadTypeV1 + "; charset=utf-8", common.PayloadTypeV1 + ";version=2",
+		"Application/Vnd.Cncf.Notary.Payload.V1+Json", " " + common.PayloadTypeV1, common.PayloadTypeV1 + " ", "application/vnd.cncf.notary.payload.v2+json"} {
+		for _, f := range []string{common.MediaJWS, common.MediaCOSE} {
+			b, err := common.SignEnvelope(common.EnvOpts{Format: f, Chain: w.chain, Target: &d, ContentType: ct})
+			if err == nil {
+				out = append(out, envCase{"content-type/" + ct, f, b, ""})
+			}
 		}
 	}
 	// re-assembled JWS: parts of two valid envelopes
@@ -356,8 +370,14 @@ func runOCI(w *world, e envCase, lv levelCase, artifact ocispec.Descriptor, req 
 	for _, kv := range req {
 		um[kv[0]] = kv[1]
 	}
-	outcome, verr := v.Verify(context.Background(), artifact, e.bytes, notation.VerifierVerifyOptions{
-		ArtifactReference: "reg.example/c01@" + artifact.Digest.String(), SignatureMediaType: e.format, UserMetadata: um})
+	vopts := notation.VerifierVerifyOptions{ArtifactReference: "reg.example/c01@" + artifact.Digest.String(), SignatureMediaType: e.format, UserMetadata: um}
+	outcome, verr := v.Verify(context.Background(), artifact, e.bytes, vopts)
+	// the caller's option maps are the caller's: a second verification with the SAME options value
+	// must see the same requirements and give the same answer
+	outcome2, verr2 := v.Verify(context.Background(), artifact, e.bytes, vopts)
+	if (verr2 == nil) != (verr == nil) || len(um) != len(req) || (outcome2 == nil) != (outcome == nil) {
+		verr, outcome = nil, &notation.VerificationOutcome{Error: errors.New("not repeatable")} // inconsistent on purpose: flagged
+	}
 	in := Input{Kind: "oci", Skip: lv.skip, Rest: lv.rest(e.signer), Artifact: toDesc(artifact), HashSupported: true, Required: req}
 	in.ParseOk, in.IntegrityOk, in.PayloadTypeOk, in.Decoded, _ = facts(e.bytes, e.format)
 	in.Artifact.Annotations = [][2]string{}
@@ -398,9 +418,15 @@ func runBlob(w *world, e envCase, lv levelCase, blob []byte, mediaType string, r
 		um[kv[0]] = kv[1]
 	}
 	rec := &recBlobVerifier{inner: v}
-	desc, _, verr := notation.VerifyBlob(context.Background(), rec, bytes.NewReader(blob), e.bytes, notation.VerifyBlobOptions{
+	bopts := notation.VerifyBlobOptions{
 		BlobVerifierVerifyOptions: notation.BlobVerifierVerifyOptions{SignatureMediaType: e.format, UserMetadata: um, TrustPolicyName: "c01"},
-		ContentMediaType:          mediaType})
+		ContentMediaType:          mediaType}
+	// first a verification whose result is discarded, with the same options value and verifier
+	notation.VerifyBlob(context.Background(), &recBlobVerifier{inner: v}, bytes.NewReader(blob), e.bytes, bopts)
+	desc, _, verr := notation.VerifyBlob(context.Background(), rec, bytes.NewReader(blob), e.bytes, bopts)
+	if len(um) != len(req) {
+		verr = nil // the caller's map was modified: flagged through an impossible acceptance
+	}
 	if !rec.called {
 		panic(fmt.Sprintf("c01: notation.VerifyBlob refused the arguments: %v", verr))
 	}
